@@ -179,6 +179,10 @@ class C14(PropCheck):
         summary = []
         for o in case['ops']:
             raised = None
+            if o['op'] == 'observed' and not models[o['h']].has_node(o['name']):
+                # the generator's shadow does not know that a private node was cleaned up: observed data
+                # is only ever set for existing nodes (a plain dict write on a missing name is outside the property)
+                continue
             try:
                 self._apply(models, rec, o)
             except Exception as e:
